@@ -1525,6 +1525,7 @@ where
         // This ensures we don't update stored_group if the extension is missing, invalid, or unsupported
         let group_data = NostrGroupDataExtension::from_group(&mls_group)?;
         // Only after successful validation, update epoch and metadata from MLS group
+        let epoch_advanced = mls_group.epoch().as_u64() > stored_group.epoch;
         stored_group.epoch = mls_group.epoch().as_u64();
 
         // Update extension data from NostrGroupDataExtension
@@ -1544,6 +1545,17 @@ where
         self.storage()
             .save_group(stored_group)
             .map_err(|e| Error::Group(e.to_string()))?;
+
+        // Events that could not be decrypted so far may have been made for the epoch just reached
+        // (a commit or message handed over ahead of its predecessor): as after a rollback, let
+        // them pass the deduplication again when they are offered the next time.
+        if epoch_advanced
+            && let Ok(event_ids) = self.storage().find_failed_messages_for_retry(group_id)
+        {
+            for event_id in &event_ids {
+                let _ = self.storage().mark_processed_message_retryable(event_id);
+            }
+        }
 
         Ok(())
     }
